@@ -11,11 +11,29 @@ type lineWriter struct {
 	label  *label.Label
 	events Events
 
+	// proj, if set, is the project the writer belongs to. Lines are then delivered to the project's
+	// current events rather than to the events the writer was created with: run() may replace the
+	// project's events for the duration of a build.
+	proj *Project
+
 	line strings.Builder
 }
 
 func newLineWriter(label *label.Label, events Events) *lineWriter {
 	return &lineWriter{label: label, events: events}
+}
+
+// newProjectLineWriter returns a line writer that delivers its lines to the given project's events.
+func newProjectLineWriter(label *label.Label, proj *Project) *lineWriter {
+	return &lineWriter{label: label, events: proj.events, proj: proj}
+}
+
+// sink returns the events that lines are delivered to.
+func (l *lineWriter) sink() Events {
+	if l.proj != nil {
+		return l.proj.events
+	}
+	return l.events
 }
 
 func (l *lineWriter) Write(b []byte) (int, error) {
@@ -28,10 +46,10 @@ func (l *lineWriter) Write(b []byte) (int, error) {
 			break
 		}
 		if l.line.Len() == 0 {
-			l.events.Print(l.label, string(b[:newline]))
+			l.sink().Print(l.label, string(b[:newline]))
 		} else {
 			l.line.Write(b[:newline])
-			l.events.Print(l.label, l.line.String())
+			l.sink().Print(l.label, l.line.String())
 			l.line.Reset()
 		}
 		b = b[newline+1:]
@@ -42,7 +60,7 @@ func (l *lineWriter) Write(b []byte) (int, error) {
 
 func (l *lineWriter) Flush() error {
 	if l.line.Len() != 0 {
-		l.events.Print(l.label, l.line.String())
+		l.sink().Print(l.label, l.line.String())
 		l.line.Reset()
 	}
 	return nil
